@@ -365,7 +365,7 @@ def _arrays(tier, seed):
     if tier == 'quick':
         plan = [(2, [1, 2, 3, 4], [1, 2, 3]), (3, [1, 2, 3], [1, 2, 3]), (4, [2, 3], [2])]
     else:
-        plan = [(2, [1, 2, 3, 4, 5], [1, 2, 3, 4]), (3, [1, 2, 3, 4], [1, 2, 3]), (4, [1, 2, 3], [1, 2, 3])]
+        plan = [(2, [1, 2, 3, 4, 5, 6, 7], [1, 2, 3, 4, 5]), (3, [1, 2, 3, 4], [1, 2, 3, 4]), (4, [1, 2, 3], [1, 2, 3]), (5, [2, 3], [1, 2, 3])]
     for d, ns, rs in plan:
         for sh in space.shapes([d], ns):
             for mag in mags:
@@ -386,7 +386,7 @@ def _arrays(tier, seed):
 
 def _matrices(tier, seed):
     out = []
-    top = 4 if tier == 'quick' else 5
+    top = 4 if tier == 'quick' else 9
     for m in range(1, top + 1):
         for n in range(1, top + 1):
             for spec in SPECTRA:
@@ -407,7 +407,7 @@ def _matrices(tier, seed):
 def _qm(tier, seed):
     out = []
     er = [(1e-12, 1e12), (1e-3, 1e12), (0.5, 1e12), (1e-12, 1), (1e-12, 2), (1e-12, 3)]
-    for q in ([1, 2, 3]):
+    for q in ([1, 2, 3] if tier == 'quick' else [1, 2, 3, 4]):
         N = 2 ** q
         for i in range(N):
             for j in range(N):
@@ -423,12 +423,12 @@ def _qm(tier, seed):
 def strata(tier, seed):
     arrs = _arrays(tier, seed)
     yield Stratum('tt-svd', arrs, 'svd', size=len(arrs), chunk=8,
-                  bounds={'d': [2, 4], 'magnitudes': [1e-6, 1, 1e6]})
+                  bounds={'d': [2, 4 if tier == 'quick' else 5], 'magnitudes': [1e-6, 1, 1e6]})
     ms = _matrices(tier, seed)
     yield Stratum('matrix-factorisations', ms, 'matrix', seq=True, size=len(ms), chunk=4,
-                  bounds={'m,n': '1..%d' % (4 if tier == 'quick' else 5), 'give_to': ['m', 'l', 'r'], 'rel': [0, 1]})
+                  bounds={'m,n': '1..%d' % (4 if tier == 'quick' else 9), 'give_to': ['m', 'l', 'r'], 'rel': [0, 1]})
     fm = [dict(shape=sh, ranks=rk, seed=seed, nonneg=nn) for sh, rk in (([4, 5], [1, 3, 1]), ([3, 4, 3], [1, 2, 3, 1]), ([2, 3, 2, 3], [1, 2, 3, 2, 1]), ([5, 1, 4], [1, 2, 2, 1]), ([6, 6], [1, 2, 1])) for nn in (False, True)]
     yield Stratum('argument forms', fm, 'forms', seq=True, size=len(fm), chunk=1, bounds={'forms': ['int64', 'int32', 'float32', 'fortran', 'strided', 'numpy scalars']})
     qm = _qm(tier, seed)
     yield Stratum('qtt-matrix-interleaving', qm, 'qttmatrix', seq=True, size=len(qm), chunk=16,
-                  bounds={'q': [1, 2, 3], 'unit matrices': 'all 4^q'})
+                  bounds={'q': [1, 2, 3] if tier == 'quick' else [1, 2, 3, 4], 'unit matrices': 'all 4^q'})
